@@ -531,6 +531,141 @@ def _replay_lookup(names, lens, fixed, choice):
     return rp
 
 
+PARAM_MUTATORS = ("setitem_grid", "add_grid", "setitem_fixed", "remove_unpacked", "unpack_off", "unpack_on_other")
+
+
+def _param_history_native(ops):
+    """the same parameter history on the real class with concrete values; -> disagreement with a freshly built object, or None"""
+    from pyphysim.simulations.parameters import SimulationParameters
+    p = SimulationParameters.create({"a": np.array([1.0, 2.0]), "b": np.array([10.0, 20.0, 30.0]), "c": np.array([7.0, 8.0]), "x": 3})
+    p.set_unpack_parameter("a")
+    p.set_unpack_parameter("b")
+    cur = {"a": [1.0, 2.0], "b": [10.0, 20.0, 30.0], "c": [7.0, 8.0], "x": 3}
+    unp = {"a", "b"}
+    done = []
+    k = 0
+    for op in ops:
+        p.get_unpacked_params_list()
+        p.get_num_unpacked_variations()
+        k += 1
+        if op == "setitem_grid":
+            cur["a"] = [100.0 + k, 200.0 + k, 300.0 + k]
+            p["a"] = np.array(cur["a"])
+        elif op == "add_grid":
+            cur["b"] = [-1.0 * k, -2.0 * k]
+            p.add("b", np.array(cur["b"]))
+        elif op == "setitem_fixed":
+            cur["x"] = 40 + k
+            p["x"] = cur["x"]
+        elif op == "remove_unpacked":
+            if "b" not in cur:
+                continue
+            del cur["b"]
+            unp.discard("b")
+            p.remove("b")
+        elif op == "unpack_off":
+            if "a" not in unp:
+                continue
+            unp.discard("a")
+            p.set_unpack_parameter("a", False)
+        elif op == "unpack_on_other":
+            unp.add("c")
+            p.set_unpack_parameter("c")
+        done.append(op)
+        fresh = SimulationParameters.create({n: (np.array(v) if isinstance(v, list) else v) for n, v in cur.items()})
+        for n in sorted(unp):
+            fresh.set_unpack_parameter(n)
+        A, B = p.get_unpacked_params_list(), fresh.get_unpacked_params_list()
+
+        def combos(lst):
+            return [{n: (np.asarray(q[n]).tolist()) for n in sorted(cur)} for q in lst]
+        if combos(A) != combos(B) or p.get_num_unpacked_variations() != fresh.get_num_unpacked_variations():
+            return {"confirmed": True, "history": ">".join(done), "combinations after the history": combos(A)[:6],
+                    "combinations of a fresh object with the current parameters": combos(B)[:6]}
+    return None
+
+
+@obligation("params/unpacked_list_follows_current_parameters", params=[{"first": m} for m in PARAM_MUTATORS], timeout=300,
+            desc="SimulationParameters histories: after get_unpacked_params_list()/get_num_unpacked_variations() were used, the parameters "
+                 "are changed through every public mutator (item assignment, add, remove, set_unpack_parameter on/off; sequences of "
+                 "length <= 2 starting with `first`) with symbolic values: the combinations returned afterwards are those of a fresh object "
+                 "built from the current parameters (the runner iterates over exactly these)")
+def ob_param_histories(first):
+    from pyphysim.simulations.parameters import SimulationParameters
+    seqs = [(first,)] + [(first, b) for b in PARAM_MUTATORS]
+
+    def one(ops):
+        def rp(model):
+            try:
+                return _param_history_native(ops) or {"confirmed": False, "note": "real class follows the current parameters along this history"}
+            except Exception as e:
+                return {"confirmed": False, "error": "replay crashed: %r" % (e,)}
+
+        def body(c, it):
+            def vec(tag, n):
+                a = np.empty(n, dtype=object)
+                for i in range(n):
+                    a[i] = c.var("%s%d" % (tag, i), "real")
+                return a
+            cur = {"a": vec("a", 2), "b": vec("b", 3), "c": vec("c", 2), "x": 3}
+            unp = {"a", "b"}
+            p = it.call(SimulationParameters.create, [dict(cur)])
+            it.call(it.getattr(p, "set_unpack_parameter"), ["a"])
+            it.call(it.getattr(p, "set_unpack_parameter"), ["b"])
+            goals = []
+            done = []
+            for k, op in enumerate(ops):
+                it.call(it.getattr(p, "get_unpacked_params_list"), [])
+                it.call(it.getattr(p, "get_num_unpacked_variations"), [])
+                if op == "setitem_grid":
+                    cur["a"] = vec("A%d_" % k, 3)
+                    it.call(it.getattr(p, "__setitem__"), ["a", cur["a"]])
+                elif op == "add_grid":
+                    cur["b"] = vec("B%d_" % k, 2)
+                    it.call(it.getattr(p, "add"), ["b", cur["b"]])
+                elif op == "setitem_fixed":
+                    cur["x"] = c.var("x%d" % k, "int")
+                    it.call(it.getattr(p, "__setitem__"), ["x", cur["x"]])
+                elif op == "remove_unpacked":
+                    if "b" not in cur:
+                        continue
+                    del cur["b"]
+                    unp.discard("b")
+                    it.call(it.getattr(p, "remove"), ["b"])
+                elif op == "unpack_off":
+                    if "a" not in unp:
+                        continue
+                    unp.discard("a")
+                    it.call(it.getattr(p, "set_unpack_parameter"), ["a", False])
+                elif op == "unpack_on_other":
+                    unp.add("c")
+                    it.call(it.getattr(p, "set_unpack_parameter"), ["c"])
+                done.append(op)
+                fresh = it.call(SimulationParameters.create, [dict(cur)])
+                for n in sorted(unp):
+                    it.call(it.getattr(fresh, "set_unpack_parameter"), [n])
+                A = it.call(it.getattr(p, "get_unpacked_params_list"), [])
+                B = it.call(it.getattr(fresh, "get_unpacked_params_list"), [])
+                tag = ">".join(done)
+                goals.append(Goal("[%s] number of combinations as for a fresh object" % tag, len(A) == len(B)
+                                  and it.call(it.getattr(p, "get_num_unpacked_variations"), []) == len(B)))
+                if len(A) != len(B):
+                    continue
+                same = True
+                for qa, qb in zip(A, B):
+                    for n in sorted(cur):
+                        va = it.call(it.getattr(qa, "__getitem__"), [n])
+                        vb = it.call(it.getattr(qb, "__getitem__"), [n])
+                        if isinstance(vb, np.ndarray):
+                            same = same and isinstance(va, np.ndarray) and va.shape == vb.shape and all(x is y for x, y in zip(va.flat, vb.flat))
+                        else:
+                            same = same and (va is vb or (not sym.is_sym(va) and not sym.is_sym(vb) and va == vb))
+                goals.append(Goal("[%s] every combination holds the current values, in the order of a fresh object" % tag, bool(same)))
+            return goals
+        return verify(body, check_side=False, replay=rp)
+    return merge([one(q) for q in seqs])
+
+
 # ------------------------------------------------------------------ bounded native
 @obligation("native/random_runs", kind="bounded", timeout=900,
             desc="native runs: random grids (0..3 unpacked params), rep_max 1..40, random skip patterns (incl. first repetition, bursts), "
@@ -547,7 +682,8 @@ def ob_native():
     def gen():
         for i in range(60 if quick() else 600):
             yield {"seed": int(r.randint(1 << 30)), "nparams": int(i % 4), "rep_max": int(r.randint(1, 40)),
-                   "single": bool((i // 4) % 5 == 4), "stop_at": int(r.randint(0, 60))}
+                   "single": bool((i // 4) % 5 == 4), "stop_at": int(r.randint(0, 60)),
+                   "skip_limit": [None, 1, 2, 3][(i // 2) % 4]}
 
     def check(case):
         rr = np.random.RandomState(case["seed"])
@@ -565,10 +701,12 @@ def ob_native():
                 self.log = []
                 self.pattern = rr.rand(5000) < 0.3
                 self.n = 0
+                self.seen = {}
 
             def _run_simulation(self, p):
                 self.n += 1
                 i = max(p.unpack_index, 0)
+                self.seen.setdefault(i, {n: p[n] for n in self.params.parameters if n in ("a", "b", "c")})
                 if self.pattern[self.n % 5000]:
                     self.log.append((i, None))
                     raise SkipThisOne("x")
@@ -579,6 +717,9 @@ def ob_native():
                 return s
 
             def _keep_going(self, p, res, rep):
+                # the stop rule may read everything the runner merges: user results AND the skip count it maintains
+                if case.get("skip_limit") is not None and res["num_skipped_reps"][-1].get_result() >= case["skip_limit"]:
+                    return False
                 return res["v"][-1].get_result() < case["stop_at"] or case["stop_at"] == 0
 
         def verify_run(run, log, rep_max):
@@ -598,8 +739,42 @@ def ob_native():
                     if ((not (k + 1 < rep_max))) or not ((not (acc >= case["stop_at"])) or case["stop_at"] == 0):
                         exp = k + 1
                         break
-                if exp != len(succ):
+                if case.get("skip_limit") is None and exp != len(succ):
                     return {"stopped at": len(succ), "expected": exp, "variation": i, "rep_max": rep_max}
+                # reference loop over the recorded outcomes (None = skipped): the stop rule is evaluated before EVERY further
+                # attempt, with the results and the skip count merged so far; the run must consume exactly these outcomes
+                outs = [v for j, v in log if j == i]
+
+                def kg(acc_, nsk_, rep_):
+                    if case.get("skip_limit") is not None and nsk_ >= case["skip_limit"]:
+                        return False
+                    return acc_ < case["stop_at"] or case["stop_at"] == 0
+                pos, nsk_, acc_ = 0, 0, None
+                while acc_ is None and pos < len(outs):
+                    if outs[pos] is None:
+                        nsk_ += 1
+                    else:
+                        acc_ = outs[pos]
+                    pos += 1
+                rep_ = 1
+                verdict = None
+                if acc_ is None:
+                    verdict = "no successful first repetition recorded"
+                while verdict is None and kg(acc_, nsk_, rep_) and rep_ < rep_max:
+                    if pos >= len(outs):
+                        verdict = "stopped although the stop rule still held and rep_max was not reached"
+                        break
+                    if outs[pos] is None:
+                        nsk_ += 1
+                    else:
+                        acc_ += outs[pos]
+                        rep_ += 1
+                    pos += 1
+                if verdict is None and pos != len(outs):
+                    verdict = "executed %d further iteration(s) after the stop rule had become false" % (len(outs) - pos)
+                if verdict:
+                    return {"repetition loop": verdict, "variation": i, "outcomes (None = skipped)": outs[:30], "rep_max": rep_max,
+                            "stop_at": case["stop_at"], "skip_limit": case.get("skip_limit")}
                 if run.results["v"][i].get_result() != sum(succ) or run.results["v"][i].num_updates != len(succ):
                     return {"merged": run.results["v"][i].get_result(), "sum": sum(succ), "variation": i}
                 if run.results["num_skipped_reps"][i].get_result() != nsk:
@@ -636,5 +811,27 @@ def ob_native():
         if bad:
             bad["run"] = "second simulate() after changing rep_max to %d" % run.rep_max
             return bad
+        # third run on the same runner after the grid itself was replaced (item assignment or add): the combinations executed are
+        # those of the CURRENT parameters
+        if names:
+            nm = names[int(rr.randint(len(names)))]
+            newvals = [int(x) for x in (100 + np.arange(rr.randint(1, 4)))]
+            if (not (rr.rand() >= 0.5)):
+                run.params[nm] = newvals
+            else:
+                run.params.add(nm, newvals)
+            run.log, run.seen = [], {}
+            run.simulate()
+            bad = verify_run(run, run.log, run.rep_max)
+            if bad:
+                bad["run"] = "third simulate() after replacing the values of %r" % nm
+                return bad
+            cur = dict(grid)
+            cur[nm] = newvals
+            want = [dict(zip(sorted(cur), combo)) for combo in itertools.product(*[cur[n] for n in sorted(cur)])]
+            got = [run.seen.get(i) for i in range(len(want))]
+            if len(run.seen) != len(want) or got != want:
+                return {"run": "third simulate() after replacing the values of %r by %s" % (nm, newvals),
+                        "combinations executed": [run.seen[k] for k in sorted(run.seen)][:8], "combinations of the current parameters": want[:8]}
         return None
     return bounded(gen(), check)
